@@ -1,15 +1,14 @@
 SPECIFICATION Spec
-CONSTANTS PairSrc = "all" CtxU = "ops3" MaxFlow = 3 KeyU = "five"
+CONSTANTS PairSrc = "all" CtxU = "ops4" MaxFlow = 3 KeyU = "six"
 INVARIANT IsPartition
 INVARIANT SnapshotsRight
 PROPERTY ResetEmpties
 INVARIANT PartitionExact
 INVARIANT OrderPreserved
 INVARIANT NoEmptyGroup
+INVARIANT PartitionIsEquivalence
 INVARIANT OwnerIsLongest
 PROPERTY Stable
 INVARIANT DefaultsOneGroup
 INVARIANT WholeContext
-INVARIANT KeyCharacterises
-INVARIANT PartitionIsEquivalence
 CHECK_DEADLOCK FALSE
